@@ -230,6 +230,7 @@ impl LoopSim {
                 let info = extract_keepalive_conn_info(b);
                 o["ext"] = json!(info.is_some());
                 o["kw"] = json!(info.as_ref().map(|i| i.window as i64).unwrap_or(-1));
+                o["ki"] = json!(info.as_ref().map(|i| i.in_flight as i64).unwrap_or(-1));
                 o["std10"] = json!(b.len() >= 10 && b[0] == 0x90 && b[1] == 0x00);
             }
             "reg1" | "reg2" => {
@@ -293,7 +294,7 @@ impl LoopSim {
                         p[0..2].copy_from_slice(&SRT_TYPE_ACK.to_be_bytes());
                         p[16..20].copy_from_slice(&top.to_be_bytes());
                         replies.push(p);
-                        if self.rx_count % 64 == 0 {
+                        if self.rx_count % 64 == 0 && self.profile != "acct" {
                             let mut q = vec![(self.rx_count >> 3 & 0xff) as u8; 24];
                             q[0..2].copy_from_slice(&SRT_TYPE_NAK.to_be_bytes());
                             q[16..20].copy_from_slice(&top.saturating_sub(3).to_be_bytes());
@@ -330,8 +331,15 @@ impl LoopSim {
                     && self.receiver.send_to(&r.bytes, r.to).is_ok()
                 {
                     let cls = cls_of(&r.bytes);
+                    let m = |x: u32| -> i64 { if x >= 0x8000_0000 { -1 } else { x as i64 } };
+                    let nums: Vec<i64> = match cls {
+                        "srtla_ack" => parse_srtla_ack(&r.bytes).iter().map(|x| m(*x)).collect(),
+                        "srt_ack" => parse_srt_ack(&r.bytes).map(|x| vec![m(x)]).unwrap_or_default(),
+                        "srt_nak" => parse_srt_nak(&r.bytes).iter().map(|x| m(*x)).collect(),
+                        _ => Vec::new(),
+                    };
                     rx.push(json!({"l": r.link as i64 + 1, "cls": cls, "len": r.bytes.len(), "dig": dig(&r.bytes),
-                                   "port": r.to.port()}));
+                                   "port": r.to.port(), "nums": nums}));
                     self.last_reply_at[r.link] = (now - T0) as i64;
                     if matches!(cls, "srtla_ack" | "srt_ack" | "reg3") {
                         self.last_ack_rx = now;
